@@ -158,6 +158,38 @@ def _assigned_names(body):
     return names
 
 
+def _rebound_names(body):
+    """Names the statements (re)bind by plain assignment / for / with / import / def -- as opposed to names whose object
+    is only modified in place (subscript or attribute store, augmented assignment, mutating method call)."""
+    names = set()
+    aug = set()
+
+    class V(ast.NodeVisitor):
+        def visit_AugAssign(self, n):
+            if isinstance(n.target, ast.Name):
+                aug.add(id(n.target))
+            self.generic_visit(n)
+
+        def visit_Name(self, n):
+            if isinstance(n.ctx, (ast.Store, ast.Del)) and id(n) not in aug:
+                names.add(n.id)
+
+        def visit_FunctionDef(self, n):
+            names.add(n.name)
+
+        def visit_Lambda(self, n):
+            pass
+
+        def visit_ListComp(self, n):
+            for g in n.generators:
+                self.visit(g.iter)
+        visit_SetComp = visit_DictComp = visit_GeneratorExp = visit_ListComp
+    v = V()
+    for s in body:
+        v.visit(s)
+    return names
+
+
 def _has_loop_escape(body):
     class V(ast.NodeVisitor):
         found = False
@@ -396,6 +428,7 @@ class Xform(ast.NodeTransformer):
             spec = ast.Call(ast.Name("__pyvc_seq__", ast.Load()), [self.visit(it), ast.Constant(False)], [])
         L = "__L%d" % k
         names_const = ast.Tuple([ast.Constant(x) for x in names], ast.Load())
+        inplace_const = ast.Tuple([ast.Constant(x) for x in sorted(set(names) - _rebound_names(n.body))], ast.Load())
 
         def snap():
             return ast.Call(ast.Name("__pyvc_snap__", ast.Load()),
@@ -408,7 +441,7 @@ class Xform(ast.NodeTransformer):
 
         pre = ast.Assign([ast.Name(L, ast.Store())],
                          ast.Call(ast.Name("__pyvc_loop__", ast.Load()),
-                                  [ast.Constant(self.info.label), ast.Constant(k), spec, snap()], []))
+                                  [ast.Constant(self.info.label), ast.Constant(k), spec, snap(), inplace_const], []))
         body = [unpack("state")] + self._stmts(n.body) + [
             ast.Expr(ast.Call(ast.Attribute(ast.Name(L, ast.Load()), "step", ast.Load()), [snap()], []))]
         loop = ast.For(n.target,
@@ -492,11 +525,11 @@ def exec_module_constant(ns, modname, name, _depth=0, resolve=None):
 LOOPSPECS = {}
 
 
-def _mkloop(label, k, iterable, pre_state):
+def _mkloop(label, k, iterable, pre_state, inplace=()):
     from . import engine, sym
     run = sym.engine()
     spec = LOOPSPECS[label][k]
-    return engine.LoopCtl(run, k, label, spec, iterable, pre_state)
+    return engine.LoopCtl(run, k, label, spec, iterable, pre_state, inplace=inplace)
 
 
 def base_namespace():
